@@ -10,7 +10,8 @@ package sqlc
 // is at the same time the reference the reads are compared with.
 // Redis-side observation and fault injection: miniredis Server().SetPreHook (every
 // GET/SET/DEL of the running scenario is logged before execution, chosen ones are
-// answered with an error), Close()/Restart() for outages, FastForward for TTLs.
+// answered with an error; during an outage every command's connection is dropped
+// without a reply), FastForward for TTLs.
 // No verdict depends on wall-clock time.
 
 import (
@@ -268,6 +269,11 @@ func (e *c06Env) hook(node int, c *server.Peer, cmd string, args []string) bool 
 
 // begin starts a scenario: only keys with this prefix are observed from now on.
 func (e *c06Env) begin(prefix string, db *c06DB) {
+	if prefix != "" {
+		for _, mr := range e.mrs {
+			mr.FlushAll() // every scenario starts on an empty redis
+		}
+	}
 	e.mu.Lock()
 	e.prefix, e.db, e.log, e.faults, e.qAtInj = prefix, db, nil, nil, -1
 	e.mu.Unlock()
@@ -880,9 +886,15 @@ func (h *c06Hist) run(r interface {
 			}
 		case "ff":
 			h.env.ff(time.Duration(op.D) * time.Second)
+			// rows/index entries live at most ceil(1.05e)+5 s, placeholders at most ceil(1.05*nfe) s
 			_, hi := c06Bounds(h.tp.Expire)
-			if int64(op.D) >= hi+6 {
-				h.taint = map[string]bool{} // every entry has expired
+			_, hiNF := c06Bounds(h.tp.NFE)
+			longest := hi + 5
+			if hiNF > longest {
+				longest = hiNF
+			}
+			if int64(op.D) > longest {
+				h.taint = map[string]bool{} // every entry that existed has expired
 			}
 		case "down":
 			h.env.down()
@@ -952,7 +964,7 @@ func TestVerifC06Coherence(t *testing.T) {
 		m.Inconclusive("env: %v", err)
 		return
 	}
-	n := vk.N(400, 12000)
+	n := vk.N(500, 12000)
 	nops := 100
 	agg := map[string]int64{}
 	ttl := newC06TTLStats()
@@ -964,7 +976,7 @@ func TestVerifC06Coherence(t *testing.T) {
 		r := m.Rand("hist", idx)
 		tp := c06RandTopo(r)
 		db := newC06DB()
-		prefix := fmt.Sprintf("c06h%d.%d:", idx, vk.Seq())
+		prefix := fmt.Sprintf("c06h%d:", idx)
 		env.begin(prefix, db)
 		h := &c06Hist{m: m, env: env, idx: idx, tp: tp, db: db, sys: c06Build(env, tp, db, prefix),
 			taint: map[string]bool{}, lastW: map[string]string{}, counts: map[string]int64{}, ttl: ttl, nodesHit: nodes}
@@ -1018,7 +1030,7 @@ func TestVerifC06TTL(t *testing.T) {
 			}
 			tp := c06Topo{Kind: kind, Expire: e, NFE: c06NFE[idx%len(c06NFE)]}
 			db := newC06DB()
-			prefix := fmt.Sprintf("c06t%d.%d:", idx, vk.Seq())
+			prefix := fmt.Sprintf("c06t%d:", idx)
 			env.begin(prefix, db)
 			s := c06Build(env, tp, db, prefix)
 			desc := func() string { return fmt.Sprintf("case=%d;%s", idx, vk.JSON(tp)) }
@@ -1089,7 +1101,7 @@ func TestVerifC06Memo(t *testing.T) {
 			continue
 		}
 		db := newC06DB()
-		prefix := fmt.Sprintf("c06m%d.%d:", idx, vk.Seq())
+		prefix := fmt.Sprintf("c06m%d:", idx)
 		env.begin(prefix, db)
 		s := c06Build(env, tp, db, prefix)
 		desc := fmt.Sprintf("case=%d;%s", idx, vk.JSON(map[string]any{"topo": tp, "via": via, "reads": nreads}))
@@ -1189,7 +1201,7 @@ func TestVerifC06Faults(t *testing.T) {
 			continue
 		}
 		db := newC06DB()
-		prefix := fmt.Sprintf("c06f%d.%d:", idx, vk.Seq())
+		prefix := fmt.Sprintf("c06f%d:", idx)
 		env.begin(prefix, db)
 		s := c06Build(env, tp, db, prefix)
 		desc := fmt.Sprintf("case=%d;%s", idx, vk.JSON(map[string]any{"topo": tp, "mode": mode}))
@@ -1320,7 +1332,7 @@ func TestVerifC06Stampede(t *testing.T) {
 		if exists {
 			db.put(row)
 		}
-		prefix := fmt.Sprintf("c06s%d.%d:", idx, vk.Seq())
+		prefix := fmt.Sprintf("c06s%d:", idx)
 		env.begin(prefix, db)
 		s := c06Build(env, tp, db, prefix)
 		desc := fmt.Sprintf("case=%d;%s", idx, vk.JSON(map[string]any{"topo": tp, "via": via, "exists": exists, "gated": gated, "waves": waves}))
